@@ -2,12 +2,9 @@ package props
 
 import (
 	"fmt"
-	"go/ast"
-	"go/types"
 	"strings"
 	"sync"
 
-	"golang.org/x/tools/go/packages"
 	"golang.org/x/tools/go/ssa"
 
 	"verifsa/core"
@@ -52,32 +49,36 @@ func runControls(dir string) error {
 		}
 		expect("errflow", n, flagged)
 	}
-	// LASTELEM / CHAIN
-	p.Decls(false, func(pkg *packages.Package, obj *types.Func, fd *ast.FuncDecl) {
-		switch obj.Name() {
-		case "goodLastGuarded", "badLastUnguarded":
-			flagged := false
-			for _, s := range eng.LastElemSites(pkg, fd) {
-				if !s.Guarded {
-					flagged = true
-				}
-			}
-			expect("lastelem", obj.Name(), flagged)
-		case "goodChain", "badChainNotAdvanced":
-			flagged := false
-			n := 0
-			for _, c := range eng.ChainLoops(pkg, fd) {
-				n++
-				if !c.OK {
-					flagged = true
-				}
-			}
-			if n == 0 {
-				fails = append(fails, "chain: no loop recognised in "+obj.Name())
-			}
-			expect("chain", obj.Name(), flagged)
+	// LASTELEM / CHAIN (SSA formulations)
+	for _, n := range []string{"goodLastGuarded", "goodLastLocalLen", "goodLastEarlyContinue", "badLastUnguarded", "badLastWrongSliceGuarded"} {
+		flagged := false
+		sites := eng.LastElemSitesSSA(fns[n])
+		if len(sites) == 0 {
+			fails = append(fails, "lastelem: no site recognised in "+n)
 		}
-	})
+		for _, s := range sites {
+			if !s.Guarded {
+				flagged = true
+			}
+		}
+		expect("lastelem", n, flagged)
+	}
+	for _, n := range []string{"goodChain", "goodChainIndexLoop", "goodChain3", "goodChain3Inlined", "badChainNotAdvanced", "badChainConditional", "badChain3Reset"} {
+		flagged := false
+		cs := eng.ChainLoopsSSA(fns[n])
+		if len(cs) == 0 {
+			fails = append(fails, "chain: no loop recognised in "+n)
+		}
+		for _, c := range cs {
+			if !c.OK {
+				flagged = true
+				if strings.HasPrefix(n, "good") {
+					fails = append(fails, "chain: "+n+": "+c.Why)
+				}
+			}
+		}
+		expect("chain", n, flagged)
+	}
 	// STRIDE
 	all := eng.AnalyzeStrideAll(p.SrcFuncs(false))
 	for _, n := range []string{"goodStrideXY", "badStrideReadsZ", "badStrideLiteralStep"} {
